@@ -25,7 +25,7 @@ class BoomBase(BaseException):
     pass
 
 
-EXC_TYPES = [ValueError, KeyError, Boom, IndexError, BoomBase]
+EXC_TYPES = [ValueError, KeyError, Boom, IndexError, BoomBase, TypeError, AttributeError, StopIteration]
 
 
 # ---------------------------------------------------------------- (a) reset_rules
@@ -82,12 +82,19 @@ class Faults:
         self.arm_at = None
         self.exc = Boom
         self.sites = []
+        self.thrown = None
+        self.after = 0          # invocations that happened after the injected exception was thrown
+        self.trace = []         # site of every invocation, in order
 
     def hit(self, site):
         self.count += 1
+        self.trace.append(site)
+        if self.thrown is not None and self.arm_at is not None:
+            self.after += 1
         if self.arm_at is not None and self.count == self.arm_at:
             self.sites.append(site)
-            raise self.exc(f"injected at invocation {self.count} of {site}")
+            self.thrown = self.exc(f"injected at invocation {self.count} of {site}")
+            raise self.thrown
 
 
 def build_wrapped(preset, opts, faults: Faults, enable=()):
@@ -155,9 +162,12 @@ def fault_case(preset, opts, enable, doc, k, exc):
     faults.arm_at = None
     if not faults.sites:
         return None  # k beyond the number of invocations
-    if raised is None or type(raised) is not exc:
-        return {"what": "injected exception did not propagate to the caller", "site": faults.sites,
-                "raised": repr(raised), "expected": exc.__name__}
+    if raised is None or type(raised) is not exc or raised is not faults.thrown:
+        return {"what": "injected exception did not propagate to the caller (the very exception object raised by the callback)",
+                "site": faults.sites, "raised": repr(raised), "expected": exc.__name__}
+    if faults.after:
+        return {"what": "user code was called again after it had raised (the exception was swallowed and the call retried or continued)",
+                "site": faults.sites, "calls_after_the_exception": faults.after}
     after = snapshot(md)
     if after != before:
         return {"what": "instance changed by a failed call", "site": faults.sites,
@@ -212,7 +222,11 @@ def count_invocations(preset, opts, enable, doc):
         guarded(md.render, doc, limit=10)
     except BaseException:  # noqa: BLE001
         return 0
+    LAST_TRACE[:] = faults.trace
     return faults.count
+
+
+LAST_TRACE: list = []
 
 
 CONFIGS = [
@@ -276,8 +290,16 @@ def run(ctx) -> int:
             ks = list(range(1, n + 1))
             if len(ks) > per_doc:
                 ks = sorted(rng.sample(ks, per_doc))
-            for k in ks:
-                exc = EXC_TYPES[(k + ci) % len(EXC_TYPES)]
+            plan = [(k, EXC_TYPES[(k + ci) % len(EXC_TYPES)]) for k in ks]
+            # the option callback and the render rules sit behind library code that inspects exceptions
+            # least expectedly: every exception type at their first invocations
+            seen_sites: dict = {}
+            for idx, site in enumerate(LAST_TRACE, 1):
+                if site == "highlight" or site.startswith("render:"):
+                    seen_sites[site] = seen_sites.get(site, 0) + 1
+                    if seen_sites[site] <= (2 if site == "highlight" else 1):
+                        plan += [(idx, e) for e in (EXC_TYPES if site == "highlight" else [TypeError, KeyError, AttributeError])]
+            for k, exc in plan:
                 v = fault_case(preset, opts, enable, doc, k, exc)
                 n_faults += 1
                 if v:
@@ -320,7 +342,7 @@ def run(ctx) -> int:
             "reset_rules theorem assumes rule names unique per chain (duplicate names make enableOnly ambiguous)"],
         "theorems": proofs["obligations"], "print_assumptions": proofs["assumptions"],
         "evaluations": len(hists) + n_faults, "distinct_nontrivial": len(set(lines)) + n_faults,
-        "rule": "(a) facade histories of reset_rules blocks with random bodies (management ops, nested blocks, raise at end, failing calls inside); (b) crash points: every k-th invocation (sampled to %d per document) of any wrapped rule of the core/block/inline/inline2 chains, any render rule, or highlight, x 5 exception types incl. a BaseException, x %d configurations x %d documents; each crash point is a distinct case" % (per_doc, len(CONFIGS), len(fdocs)),
+        "rule": "(a) facade histories of reset_rules blocks with random bodies (management ops, nested blocks, raise at end, failing calls inside); (b) crash points: every k-th invocation (sampled to %d per document) of any wrapped rule of the core/block/inline/inline2 chains, any render rule, or highlight, x 8 exception types incl. a BaseException, TypeError, AttributeError and StopIteration (the very exception object must reach the caller and no user code may run after it), x %d configurations x %d documents; each crash point is a distinct case" % (per_doc, len(CONFIGS), len(fdocs)),
         "samples": [hists[0][:4], {"doc": FAULT_DOCS[0], "k": 7}],
         "traces_validated_against_impl": len(hists),
         "reset_blocks": n_blocks, "raising_steps": n_raising, "crash_points": n_faults,
